@@ -1,4 +1,5 @@
 import BoltonsVerif.C17.Proofs2
+import BoltonsVerif.C17.Readers
 import BoltonsVerif.C17.HeapProofs
 /-
 C17 — property theorems (statements + short derivations from `Proofs.lean`, and
@@ -271,6 +272,42 @@ theorem m2m_update_spec (s o : M2M α) (wo : o.WF) (a x : α) :
     x ∈ getSet a (s.updateFrom o).data ↔ x ∈ getSet a s.data ∨ x ∈ getSet a o.data :=
   M2M.updateFrom_data wo a x
 
+/-! the readers (`m[k]`, `get`, `in`, `len`, `keys()` / `iter`) - round 3: inside the model, compared by the
+    correspondence on every dump -/
+
+/-- after any history the readers of an instance tell the same story as `iteritems()`: `v in m.get(k)` iff the pair is
+    there; `k in m` iff `k` has a pair (no empty entry is ever visible); `m[k]` raises KeyError exactly for `k not in m`
+    and is otherwise the non-empty `m.get(k)`; `keys()` lists each key once, `len(m)` counts them -/
+theorem m2m_readers_agree (cmds : List (M2MCmd α)) (regs : List (M2M α))
+    (h : m2mRun [] cmds = some regs) (s : M2M α) (hs : s ∈ regs) (k v : α) :
+    (v ∈ s.get k ↔ (k, v) ∈ iteritems s.data) ∧
+    (s.contains k = true ↔ ∃ x, (k, x) ∈ iteritems s.data) ∧
+    (s.getitem k = none ↔ s.contains k = false) ∧
+    (∀ vs, s.getitem k = some vs → vs = s.get k ∧ vs ≠ [] ∧ vs.Nodup ∧ s.contains k = true) ∧
+    s.keysList.Nodup ∧ s.len = s.keysList.length ∧ (k ∈ s.keysList ↔ s.contains k = true) := by
+  have w := m2m_invariant cmds regs h s hs
+  have ks := M2M.keys_spec w
+  exact ⟨M2M.mem_get w k v, M2M.contains_iff w k, (M2M.getitem_spec w k).1, (M2M.getitem_spec w k).2,
+    ks.1, ks.2.1, ks.2.2.1 k⟩
+
+/-- … and the readers of `.inv` are those of the instance, transposed: `k in m.inv.get(v)` iff `v in m.get(k)`;
+    `v in m.inv` iff some key holds `v` -/
+theorem m2m_readers_transposed (cmds : List (M2MCmd α)) (regs : List (M2M α))
+    (h : m2mRun [] cmds = some regs) (s : M2M α) (hs : s ∈ regs) (k v : α) :
+    (k ∈ s.flip.get v ↔ v ∈ s.get k) ∧ (s.flip.contains v = true ↔ ∃ a, v ∈ s.get a) :=
+  M2M.readers_transposed (m2m_invariant cmds regs h s hs) k v
+
+/-- a reader through `.inv.inv` is the reader of the instance -/
+theorem m2m_readers_inv_inv (s : M2M α) (k : α) :
+    s.flip.flip.get k = s.get k ∧ s.flip.flip.contains k = s.contains k ∧ s.flip.flip.len = s.len := ⟨rfl, rfl, rfl⟩
+
+/-! non-vacuity: the readers on a state with a shared value and a key that was emptied and dropped -/
+example : m2mRun ([] : List (M2M Nat)) [.new [(1, 5), (2, 5), (2, 6)], .op 0 false (.remove 1 5)]
+    = some [⟨[(2, [5, 6])], [(5, [2]), (6, [2])]⟩] := by decide
+example : let s : M2M Nat := ⟨[(2, [5, 6])], [(5, [2]), (6, [2])]⟩
+    s.get 2 = [5, 6] ∧ s.get 1 = [] ∧ s.getitem 1 = none ∧ s.contains 1 = false ∧ s.contains 2 = true ∧ s.len = 1 ∧
+    s.keysList = [2] ∧ s.flip.get 5 = [2] ∧ s.flip.len = 2 := by decide
+
 /-! non-vacuity: replace onto an existing key, update from the own inverse, then mutate the source -/
 example : m2mRun ([] : List (M2M Nat))
     [.new [(1, 5), (2, 5), (2, 6)], .op 0 false (.replace 1 2), .newFrom 0 true,
@@ -353,6 +390,19 @@ theorem hm2m_same_pairs_transposed (cmds : List (M2MCmd α)) (st : HState α)
   show (k, v) ∈ iteritems (s.abs st.heap).data ↔ (v, k) ∈ iteritems (s.abs st.heap).inv
   rw [mem_iteritems w.gd, mem_iteritems w.gi]
   exact w.transpose k v
+
+/-- … and at heap level the readers (which dereference the instance's own set objects) agree with `iteritems()` and
+    with the readers of the other side, after any history -/
+theorem hm2m_readers_agree (cmds : List (M2MCmd α)) (st : HState α)
+    (h : hm2mRun HState.empty cmds = some st) (s : HInst α) (hs : s ∈ st.regs) (k v : α) :
+    (v ∈ (s.abs st.heap).get k ↔ (k, v) ∈ iteritems (deref st.heap s.data)) ∧
+    ((s.abs st.heap).contains k = true ↔ ∃ x, (k, x) ∈ iteritems (deref st.heap s.data)) ∧
+    ((s.abs st.heap).getitem k = none ↔ (s.abs st.heap).contains k = false) ∧
+    (k ∈ (s.abs st.heap).flip.get v ↔ v ∈ (s.abs st.heap).get k) ∧
+    (s.abs st.heap).len = (s.abs st.heap).keysList.length := by
+  have w := hm2m_invariant cmds st h s hs
+  exact ⟨M2M.mem_get w k v, M2M.contains_iff w k, (M2M.getitem_spec w k).1, (M2M.readers_transposed w k v).1,
+    (M2M.keys_spec w).2.1⟩
 
 /-- what `x.update(x.inv)` leaves in `x`: the union of the relation and its transpose -/
 theorem hm2m_self_update_spec (A : M2M α) (w : A.WF) (a x : α) :
